@@ -111,9 +111,9 @@ FINDINGS = {
     "F4c-external-select-unfiltered": ("KeyError", "add_choices_info_to_question"),
     "F21-randomize-with-search": ("AttributeError", "_redirect_is_search_itext"),
     "F23-header-jr": ("IndexError", "process_header"),
-    "F26-entity-type-row": ("TypeError", "create_survey_element_from_dict"),
     "F27-entities-sheet-without-list-name": ("KeyError", "get_validated_dataset_name"),
     "F28-control-character-with-reference": ("ExpatError", "node"),
+    "F42-settings-slot-with-plain-text": ("AttributeError", "__no_such_site__"),     # matched by the structural predicate in classify()
 }
 FINDING_INPUTS = {
     "F4c-external-select-unfiltered": {"survey": [{"type": "select_one_external cities", "name": "c", "label": "C"}],
@@ -122,7 +122,7 @@ FINDING_INPUTS = {
     "F21-randomize-with-search": {"survey": [{"type": "select_one l", "name": "s", "label": "S", "parameters": "randomize=true", "appearance": "search('f')"}],
                                   "choices": [{"list_name": "l", "name": "a", "label": "A"}]},
     "F23-header-jr": {"survey": [{"type": "text", "name": "q", "label": "Q", "jr": "x"}]},
-    "F26-entity-type-row": {"survey": [{"type": "entity", "name": "e", "label": "E"}]},
+    "F42-settings-slot-with-plain-text": {"survey": [{"type": "text", "name": "q", "label": "Q"}], "settings": [{"bind": "text"}]},
     "F27-entities-sheet-without-list-name": {"survey": [{"type": "text", "name": "q", "label": "Q"}], "entities": [{"label": "x"}]},
     "F28-control-character-with-reference": {"survey": [{"type": "text", "name": "q", "label": "Q"}, {"type": "note", "name": "n", "label": "a\x01 ${q}"}]},
 }
@@ -146,11 +146,11 @@ def classify(crash, form=None):
     for slug, (tname, fn) in FINDINGS.items():
         if crash[0] == tname and crash[1] == fn:
             return slug
-    # a survey row whose type is `entity` builds an EntityDeclaration from the row's own cells: it fails in the constructor
-    # (no parameters cell) or later in EntityDeclaration.xml_instance / xml_bindings (a parameters cell that is not the builder's dict)
-    if form and any(" ".join(str(r.get("type", "")).split()) == "entity" for r in form.get("survey", [])) and crash[0] in ("TypeError", "AttributeError", "KeyError") \
-            and crash[1] in ("create_survey_element_from_dict", "xml_instance", "xml_bindings", "__init__"):
-        return "F26-entity-type-row"
+    # a settings column named after a Survey slot that holds a structure (bind, control, _translations ...) with a plain text value:
+    # the text is handed to Survey(**kwargs) and used as the dict it is not
+    SLOTS = {"bind", "control", "_translations", "_xpath", "instance", "media", "parameters", "choices", "extra_data"}
+    if form and any("_".join(str(k).split()).lower() in SLOTS for row in form.get("settings", []) for k in row) and crash[0] in ("AttributeError", "TypeError"):
+        return "F42-settings-slot-with-plain-text"
     return None
 
 
@@ -443,7 +443,7 @@ def fuzz_form(rng):
         "rank l", "select_one ${q}", "select_multiple ${q}", "select_one l or_other", "select_one_from_file f.csv or_other", "select_one ${q} or_other",
         "select_one_external l or_other", "select_multiple l or other", "begin group", "end group", "begin repeat", "end repeat", "begin loop over l",
         "end loop", "osm", "osm zz", "osm l", "xml-external", "csv-external", "text ", "select_one", "select_one  l", "begin", "end", "begin group x", "select_one l m",
-        "unknown", "Select_One l", "background-geopoint", "entity"]
+        "unknown", "Select_One l", "background-geopoint", "entity", "survey", "loop", "group", "repeat", "meta", "children", "question", "audit", "start-geopoint"]
     names = ["a", "b", "q", "q1", "g", "r", "l", "1a", "a b", "a-b", "a.b", "meta", "instanceID", "data", "name", "é", "a:b", "_x", "qqq", "${q}", "x" * 70]
     params = ["randomize=true", "randomize=maybe", "seed=1", "randomize=true seed=x", "start=1 end=2 step=1", "start=a", "max-pixels=abc", "x", "=", "a=b=c",
               "value=v label=l", ";", "rows=3", "quality=low", "allow-mock-accuracy=true", "capture-accuracy=x", "track-changes=true", "location-priority=x"]
@@ -477,7 +477,8 @@ def fuzz_form(rng):
         form["choices"] = ch
     if rng.random() < 0.3:
         form["settings"] = [{rng.choice(["form_id", "form_title", "version", "default_language", "public_key", "omit_instanceID", "namespaces", "style", "instance_name",
-                                         "allow_choice_duplicates", "name"]): rng.choice(["x", "yes", "${q}", "a b", "1a"])}]
+                                         "allow_choice_duplicates", "name", "type", "children", "title", "id_string", "flat", "sms_keyword", "label", "hint", "bind", "control",
+                                         "parent", "choices", "clean_text_values", "add_none_option", "_translations"]): rng.choice(["x", "yes", "${q}", "a b", "1a", "text"])}]
     if rng.random() < 0.2:
         form["external_choices"] = [{"list_name": "l", "name": "a", "label": "A"}]
     if rng.random() < 0.15:
@@ -497,12 +498,71 @@ def _check_fuzz(args):
     return {"i": i, "ok": True, "key": ("fuzz", st, hash(json.dumps(form, sort_keys=True))), "n": 1 if st == "pyxerr" else 0, "class": st}
 
 
+CT_CELLS = ["type", "name", "label", "text", "q1", "A b", "", " ", "select_one l", "l", "list_name", "begin group", "end group", "integer", "hint", "x#y", "#", "é", "a\\|b", "-",
+            "calculate", "calculation", "1+1", "${q1}", "${", "form_title", "T", "survey", "choices", "settings", "yes", "required", "label::fr", "default", "note", "relevant",
+            "dataset", "save_to", "entity", "loop", "children", "bind", "list name", "value", "\u00a0", "a,b"]
+CT_SHEETS = ["survey", "choices", "settings", "Survey", "notes", "entities", "external_choices", "osm", "x y", "", "setting", "sheet_names", " survey"]
+
+
+def container_text(rng):
+    """a Markdown or CSV text built from XLSForm vocabulary: ragged rows, empty sheets, unknown sheets, rows above the first sheet"""
+    kind = rng.choice(["md", "csv"])
+
+    def md_line():
+        k = rng.random()
+        if k < 0.06:
+            return rng.choice(["", " ", "# c", "|", "||", "| |", "|---|---|", "text"])
+        if k < 0.25:
+            return "| " + rng.choice(CT_SHEETS) + rng.choice([" |", " | ", " | a |", "|"])
+        return "| | " + " | ".join(rng.choice(CT_CELLS) for _ in range(rng.randint(0, 5))) + rng.choice([" |", " | ", "", "", " | x"])
+
+    def csv_line():
+        k = rng.random()
+        if k < 0.06:
+            return rng.choice(["", " ", ",", ",,", "x"])
+        if k < 0.25:
+            return rng.choice(CT_SHEETS + ['"survey"']) + rng.choice(["", ",", ",a"])
+        return "," + ",".join(rng.choice(CT_CELLS).replace(",", ";") for _ in range(rng.randint(0, 5)))
+    hdr = {"md": "| survey |\n| | type | name | label |\n", "csv": "survey\n,type,name,label\n"}[kind] if rng.random() < 0.6 else ""
+    return kind, hdr + "\n".join((md_line if kind == "md" else csv_line)() for _ in range(rng.randint(1, 7))) + "\n"
+
+
+def _check_container(args):
+    seed, i = args
+    rng = rng_for(seed, PID, "container", i)
+    kind, text = container_text(rng)
+    from pyxform.xls2xform import convert
+    from pyxform.errors import PyXFormError
+    try:
+        convert(text, file_type="." + kind)
+        st = "ok"
+    except PyXFormError:
+        st = "pyxerr"
+    except Exception as e:   # noqa: BLE001
+        frames = [f for f in traceback.extract_tb(e.__traceback__) if "/pyxform/" in f.filename]
+        fn = frames[-1].name if frames else "?"
+        crash = (type(e).__name__, fn, str(e)[:120])
+        # the findings are predicates over the row dicts; read the text back with the library's own reader to apply them
+        form = None
+        try:
+            from pyxform.xls2json_backends import md_to_dict, csv_to_dict
+            d = (md_to_dict if kind == "md" else csv_to_dict)(text)
+            form = {k: v for k, v in d.items() if isinstance(v, list) and not k.endswith("_header") and k != "sheet_names"}
+        except Exception:   # noqa: BLE001
+            form = None
+        return {"i": i, "input": {"text": text, "file_type": "." + kind, "case": i, "stream": "container"}, "what": f"{kind} text: internal exception {crash[0]} in {crash[1]}: {crash[2]}",
+                "finding": classify(crash, form)}
+    return {"i": i, "ok": True, "key": ("container", kind, st, hash(text)), "n": 1 if st == "pyxerr" else 0, "class": f"{kind}/{st}"}
+
+
 def oracle(seed, tier, searching=False):
     nm, nf = (540, 1500) if tier == "quick" else (9000, 30000)
     if searching:
         nm, nf = nm * 3, nf * 3
     res_m = pmap(_check_mutation, [(seed, i) for i in range(nm)])
     res_f = pmap(_check_fuzz, [(seed, i) for i in range(nf)])
+    res_c = pmap(_check_container, [(seed, i) for i in range(nf // 2)])
+    res_f = res_f + res_c
     res = res_m + res_f
     fails = [r for r in res if "what" in r]
     oks = [r for r in res if r.get("ok")]
@@ -536,7 +596,8 @@ def oracle(seed, tier, searching=False):
                 "with blank rows above the site: the form must be refused with the library's error, the message must match the kind, cite the right "
                 "row where the kind carries one and name the subject; fuzz stream: rows drawn from the XLSForm vocabulary (all question types and "
                 "select/group/osm/external spellings, valid and invalid names, parameters, references, appearances, entities/osm/external sheets): the "
-                "only outcomes are a result or the library's error",
+                "only outcomes are a result or the library's error; container stream: Markdown and CSV TEXTS built from the same vocabulary (ragged rows, sheet names with no rows, "
+                "unknown and misspelt sheets, rows above the first sheet name, settings columns named after internal keys) through convert(): same demand",
         "accepted": len(oks), "mutations_checked": per_mut, "skipped": skips, "fuzz_outcomes": classes, "known_finding_hits": known_hits,
         "failures": [{"input": f["input"], "what": f["what"], "finding": f.get("finding"),
                       "reproduce": "cd /verif && /venv/bin/python harness/check.py C17 --replay <this file>"} for f in kept[:12]],
@@ -557,6 +618,20 @@ def replay_finding(slug):
 def replay(path: Path) -> int:
     payload = json.loads(Path(path).read_text())
     inp = payload["input"]
+    if "text" in inp:
+        from pyxform.xls2xform import convert
+        from pyxform.errors import PyXFormError
+        try:
+            convert(inp["text"], file_type=inp["file_type"])
+        except PyXFormError as e:
+            print("library error:", str(e)[:200])
+            return 0
+        except Exception as e:   # noqa: BLE001
+            print(f"internal exception {e!r}")
+            print(f"VIOLATION property={PID} replay={path}")
+            return 1
+        print("converted")
+        return 0
     st, r = outcome(as_input(inp["form"]))
     if st == "crash":
         print(f"internal exception {r[0]} in {r[1]}: {r[2]}")
